@@ -288,6 +288,7 @@ var integer32 = []*instructionType{
 		opcode:       opcodeShiftImm(false, 5, 0b001, 0b0010011),
 		inputRegCnt:  1,
 		hasOutputReg: true,
+		immediate:    immTypeShamt,
 		effects: func(i instruction) []expr.Effect {
 			val := regImmShift(binOpFunc(expr.Lsh), i, 5, width32)
 			return []expr.Effect{regStore(val, i, width32)}
@@ -297,6 +298,7 @@ var integer32 = []*instructionType{
 		opcode:       opcodeShiftImm(false, 5, 0b101, 0b0010011),
 		inputRegCnt:  1,
 		hasOutputReg: true,
+		immediate:    immTypeShamt,
 		effects: func(i instruction) []expr.Effect {
 			val := regImmShift(binOpFunc(expr.Rsh), i, 5, width32)
 			return []expr.Effect{regStore(val, i, width32)}
@@ -306,6 +308,7 @@ var integer32 = []*instructionType{
 		opcode:       opcodeShiftImm(true, 5, 0b101, 0b0010011),
 		inputRegCnt:  1,
 		hasOutputReg: true,
+		immediate:    immTypeShamt,
 		effects: func(i instruction) []expr.Effect {
 			val := regImmShift(exprtools.RshA, i, 5, width32)
 			return []expr.Effect{regStore(val, i, width32)}
@@ -510,6 +513,7 @@ var integer32 = []*instructionType{
 		inputRegCnt:  0,
 		hasOutputReg: true,
 		immediate:    immTypeI,
+		rs1Imm:       true,
 		instrType:    model.TypeCPUStateChange,
 		effects: func(i instruction) []expr.Effect {
 			key := csrKey(i)
@@ -524,6 +528,7 @@ var integer32 = []*instructionType{
 		inputRegCnt:  0,
 		hasOutputReg: true,
 		immediate:    immTypeI,
+		rs1Imm:       true,
 		instrType:    model.TypeCPUStateChange,
 		effects: func(i instruction) []expr.Effect {
 			key := csrKey(i)
@@ -540,6 +545,7 @@ var integer32 = []*instructionType{
 		inputRegCnt:  0,
 		hasOutputReg: true,
 		immediate:    immTypeI,
+		rs1Imm:       true,
 		instrType:    model.TypeCPUStateChange,
 		effects: func(i instruction) []expr.Effect {
 			key := csrKey(i)
